@@ -279,7 +279,10 @@ func c13all(w *Worker, h []Op, full bool, r *Rng) {
 func rawProgram(r *Rng, maxLen int) []Op {
 	n := 1 + r.Intn(maxLen)
 	h := make([]Op, 0, n)
-	pay := append(append([]string{}, strPayloadsValid...), strPayloadsInvalid...)
+	// Writes that are not preceded by SetMode may land in raw mode, which only
+	// accepts well-formed fragments (C09's quantifier): marker-free text or whole
+	// envelopes, never a lone or partial marker.
+	pay := []string{"@", "", " ", "\n", "@\n@", "é@日", "?@", startM + "@" + endM, startM + "@" + endM + "\n" + startM + "b" + endM, "x" + redactedM, "º@"}
 	for i := 0; i < n; i++ {
 		switch r.Intn(6) {
 		case 0:
@@ -289,10 +292,10 @@ func rawProgram(r *Rng, maxLen int) []Op {
 		case 2:
 			h = append(h, Op{M: "RawWriteString", S: uniq(pay[r.Intn(len(pay))], i)})
 		case 3:
-			bs := append(append([]byte{}, bytePayloadsValid...), bytePayloadsInvalid...)
+			bs := []byte{'a', '\n', ' ', '?', 0, 'z'}
 			h = append(h, Op{M: "RawWriteByte", B: bs[r.Intn(len(bs))]})
 		case 4:
-			rs := append(append([]int32{}, runePayloadsValid...), runePayloadsInvalid...)
+			rs := []int32{'a', '\n', ' ', 0xe9, 0x1f6d1, '?', 0, 0xba, -1, 0xd800, 0x110000}
 			h = append(h, Op{M: "RawWriteRune", R: rs[r.Intn(len(rs))]})
 		default:
 			h = append(h, randOp(r, i, 20))
